@@ -1,3 +1,6 @@
+import BS.Props.C07
+import BS.Props.C02
+import BS.Lemmas.Lift
 import BS.Lemmas.RefAcc
 /-
   C15 — The result of a visit is independent of the visitor (first half; re-parsing is stated elsewhere).
@@ -76,5 +79,193 @@ example : (Transaction.visit C15_exampleTx recorder []).2 = parseOf (Transaction
 /-- a breaking visitor does get a different result: the hypothesis cannot be dropped -/
 example : (Transaction.visit C15_exampleTx (breakAt 0) ([], 0)).2 ≠ parseOf (Transaction.visit C15_exampleTx) := by
   decide
+
+/-! ## L1 corollaries (generated by tools/genlift.py) -/
+section L1
+open BS.Ref BS.Lift
+
+/-- re-parsing the view of a parsed object: the same object, an empty remainder and the same callback sequence -/
+theorem C15_reparse_txins {s : Slice} {o : TxInsV} {rem : Slice} (h : (decTxIns s).res = .ok (o, rem)) :
+    decTxIns o.slice = ⟨(decTxIns s).trace, .ok (o, ⟨rem.base, []⟩)⟩ := by
+  obtain ⟨k, hk, ho, hr⟩ := C02_partition_txins h
+  obtain ⟨b, p⟩ := s
+  have hlen : p.length - rem.bytes.length = k := by
+    rw [hr]; simp [Slice.len] at hk ⊢; omega
+  have := C07_exact_txins h []
+  rw [hlen, List.append_nil] at this
+  rw [ho]; exact this
+
+/-- re-parsing the view of a parsed object: the same object, an empty remainder and the same callback sequence -/
+theorem C15_reparse_txouts {s : Slice} {o : TxOutsV} {rem : Slice} (h : (decTxOuts s).res = .ok (o, rem)) :
+    decTxOuts o.slice = ⟨(decTxOuts s).trace, .ok (o, ⟨rem.base, []⟩)⟩ := by
+  obtain ⟨k, hk, ho, hr⟩ := C02_partition_txouts h
+  obtain ⟨b, p⟩ := s
+  have hlen : p.length - rem.bytes.length = k := by
+    rw [hr]; simp [Slice.len] at hk ⊢; omega
+  have := C07_exact_txouts h []
+  rw [hlen, List.append_nil] at this
+  rw [ho]; exact this
+
+/-- re-parsing the view of a parsed object: the same object, an empty remainder and the same callback sequence -/
+theorem C15_reparse_witnesses (n : Nat) {s : Slice} {o : WitnessesV} {rem : Slice} (h : (decWitnesses s n).res = .ok (o, rem)) :
+    decWitnesses o.slice n = ⟨(decWitnesses s n).trace, .ok (o, ⟨rem.base, []⟩)⟩ := by
+  obtain ⟨k, hk, ho, hr⟩ := C02_partition_witnesses n h
+  obtain ⟨b, p⟩ := s
+  have hlen : p.length - rem.bytes.length = k := by
+    rw [hr]; simp [Slice.len] at hk ⊢; omega
+  have := C07_exact_witnesses n h []
+  rw [hlen, List.append_nil] at this
+  rw [ho]; exact this
+
+/-- re-parsing the view of a parsed object: the same object, an empty remainder and the same callback sequence -/
+theorem C15_reparse_transaction {s : Slice} {o : TxV} {rem : Slice} (h : (decTransaction s).res = .ok (o, rem)) :
+    decTransaction o.slice = ⟨(decTransaction s).trace, .ok (o, ⟨rem.base, []⟩)⟩ := by
+  obtain ⟨k, hk, ho, hr⟩ := C02_partition_transaction h
+  obtain ⟨b, p⟩ := s
+  have hlen : p.length - rem.bytes.length = k := by
+    rw [hr]; simp [Slice.len] at hk ⊢; omega
+  have := C07_exact_transaction h []
+  rw [hlen, List.append_nil] at this
+  rw [ho]; exact this
+
+/-- re-parsing the view of a parsed object: the same object, an empty remainder and the same callback sequence -/
+theorem C15_reparse_header {s : Slice} {o : HeaderV} {rem : Slice} (h : (decHeader s).res = .ok (o, rem)) :
+    decHeader o.slice = ⟨(decHeader s).trace, .ok (o, ⟨rem.base, []⟩)⟩ := by
+  obtain ⟨k, hk, ho, hr⟩ := C02_partition_header h
+  obtain ⟨b, p⟩ := s
+  have hlen : p.length - rem.bytes.length = k := by
+    rw [hr]; simp [Slice.len] at hk ⊢; omega
+  have := C07_exact_header h []
+  rw [hlen, List.append_nil] at this
+  rw [ho]; exact this
+
+/-- re-parsing the view of a parsed object: the same object, an empty remainder and the same callback sequence -/
+theorem C15_reparse_block {s : Slice} {o : BlockV} {rem : Slice} (h : (decBlock s).res = .ok (o, rem)) :
+    decBlock o.slice = ⟨(decBlock s).trace, .ok (o, ⟨rem.base, []⟩)⟩ := by
+  obtain ⟨k, hk, ho, hr⟩ := C02_partition_block h
+  obtain ⟨b, p⟩ := s
+  have hlen : p.length - rem.bytes.length = k := by
+    rw [hr]; simp [Slice.len] at hk ⊢; omega
+  have := C07_exact_block h []
+  rw [hlen, List.append_nil] at this
+  rw [ho]; exact this
+
+theorem C15_reparse_script {s : Slice} {o : ScriptV} {rem : Slice} (h : decScript s = .ok (o, rem)) :
+    decScript o.slice = .ok (o, ⟨rem.base, []⟩) := by
+  obtain ⟨k, hk, ho, hr⟩ := C02_partition_script h
+  obtain ⟨b, p⟩ := s
+  have hlen : p.length - rem.bytes.length = k := by
+    rw [hr]; simp [Slice.len] at hk ⊢; omega
+  have := C07_exact_script h []
+  rw [hlen, List.append_nil] at this
+  rw [ho]; exact this
+
+theorem C15_reparse_outpoint {s : Slice} {o : OutPointV} {rem : Slice} (h : decOutPoint s = .ok (o, rem)) :
+    decOutPoint o.slice = .ok (o, ⟨rem.base, []⟩) := by
+  obtain ⟨k, hk, ho, hr⟩ := C02_partition_outpoint h
+  obtain ⟨b, p⟩ := s
+  have hlen : p.length - rem.bytes.length = k := by
+    rw [hr]; simp [Slice.len] at hk ⊢; omega
+  have := C07_exact_outpoint h []
+  rw [hlen, List.append_nil] at this
+  rw [ho]; exact this
+
+theorem C15_reparse_txin {s : Slice} {o : TxInV} {rem : Slice} (h : decTxIn s = .ok (o, rem)) :
+    decTxIn o.slice = .ok (o, ⟨rem.base, []⟩) := by
+  obtain ⟨k, hk, ho, hr⟩ := C02_partition_txin h
+  obtain ⟨b, p⟩ := s
+  have hlen : p.length - rem.bytes.length = k := by
+    rw [hr]; simp [Slice.len] at hk ⊢; omega
+  have := C07_exact_txin h []
+  rw [hlen, List.append_nil] at this
+  rw [ho]; exact this
+
+theorem C15_reparse_txout {s : Slice} {o : TxOutV} {rem : Slice} (h : decTxOut s = .ok (o, rem)) :
+    decTxOut o.slice = .ok (o, ⟨rem.base, []⟩) := by
+  obtain ⟨k, hk, ho, hr⟩ := C02_partition_txout h
+  obtain ⟨b, p⟩ := s
+  have hlen : p.length - rem.bytes.length = k := by
+    rw [hr]; simp [Slice.len] at hk ⊢; omega
+  have := C07_exact_txout h []
+  rw [hlen, List.append_nil] at this
+  rw [ho]; exact this
+
+/-- on the model of the code: parse an input, then `parse` / `self_visit` the object's own bytes — equal object, empty
+    remainder, and the recording visitor receives the same callbacks as on the original input -/
+theorem C15_L1_reparse_txins {s : Slice} (hs : s.len < 2 ^ 62) {o : TxInsV} {rem : Slice}
+    (h : parseOf (TxIns.visit s) = .ok (o, rem)) :
+    parseOf (TxIns.visit o.slice) = .ok (o, ⟨rem.base, []⟩) ∧
+    (TxIns.visit o.slice) recorder [] = (((TxIns.visit s) recorder []).1, .ok (o, ⟨rem.base, []⟩)) := by
+  rw [parseOf_txins s hs] at h
+  obtain ⟨k, hk, ho, _⟩ := C02_partition_txins h
+  have hl : o.slice.len < 2 ^ 62 := by
+    rw [ho]; show (s.bytes.take k).length < 2 ^ 62
+    rw [List.length_take]; unfold Slice.len at hs hk; omega
+  have hre := C15_reparse_txins h
+  refine ⟨by rw [parseOf_txins _ hl, hre], ?_⟩
+  rw [recorder_eq (fun v st => refine_txins _ hl v st), recorder_eq (fun v st => refine_txins s hs v st), hre]
+
+/-- on the model of the code: parse an input, then `parse` / `self_visit` the object's own bytes — equal object, empty
+    remainder, and the recording visitor receives the same callbacks as on the original input -/
+theorem C15_L1_reparse_txouts {s : Slice} (hs : s.len < 2 ^ 62) {o : TxOutsV} {rem : Slice}
+    (h : parseOf (TxOuts.visit s) = .ok (o, rem)) :
+    parseOf (TxOuts.visit o.slice) = .ok (o, ⟨rem.base, []⟩) ∧
+    (TxOuts.visit o.slice) recorder [] = (((TxOuts.visit s) recorder []).1, .ok (o, ⟨rem.base, []⟩)) := by
+  rw [parseOf_txouts s hs] at h
+  obtain ⟨k, hk, ho, _⟩ := C02_partition_txouts h
+  have hl : o.slice.len < 2 ^ 62 := by
+    rw [ho]; show (s.bytes.take k).length < 2 ^ 62
+    rw [List.length_take]; unfold Slice.len at hs hk; omega
+  have hre := C15_reparse_txouts h
+  refine ⟨by rw [parseOf_txouts _ hl, hre], ?_⟩
+  rw [recorder_eq (fun v st => refine_txouts _ hl v st), recorder_eq (fun v st => refine_txouts s hs v st), hre]
+
+/-- on the model of the code: parse an input, then `parse` / `self_visit` the object's own bytes — equal object, empty
+    remainder, and the recording visitor receives the same callbacks as on the original input -/
+theorem C15_L1_reparse_witnesses {s : Slice} {n : Nat} (hs : s.len < 2 ^ 62) {o : WitnessesV} {rem : Slice}
+    (h : parseOf (Witnesses.visit s n) = .ok (o, rem)) :
+    parseOf (Witnesses.visit o.slice n) = .ok (o, ⟨rem.base, []⟩) ∧
+    (Witnesses.visit o.slice n) recorder [] = (((Witnesses.visit s n) recorder []).1, .ok (o, ⟨rem.base, []⟩)) := by
+  rw [parseOf_witnesses s hs n] at h
+  obtain ⟨k, hk, ho, _⟩ := C02_partition_witnesses n h
+  have hl : o.slice.len < 2 ^ 62 := by
+    rw [ho]; show (s.bytes.take k).length < 2 ^ 62
+    rw [List.length_take]; unfold Slice.len at hs hk; omega
+  have hre := C15_reparse_witnesses n h
+  refine ⟨by rw [parseOf_witnesses _ hl n, hre], ?_⟩
+  rw [recorder_eq (fun v st => refine_witnesses _ hl n v st), recorder_eq (fun v st => refine_witnesses s hs n v st), hre]
+
+/-- on the model of the code: parse an input, then `parse` / `self_visit` the object's own bytes — equal object, empty
+    remainder, and the recording visitor receives the same callbacks as on the original input -/
+theorem C15_L1_reparse_transaction {s : Slice} (hs : s.len < 2 ^ 62) {o : TxV} {rem : Slice}
+    (h : parseOf (Transaction.visit s) = .ok (o, rem)) :
+    parseOf (Transaction.visit o.slice) = .ok (o, ⟨rem.base, []⟩) ∧
+    (Transaction.visit o.slice) recorder [] = (((Transaction.visit s) recorder []).1, .ok (o, ⟨rem.base, []⟩)) := by
+  rw [parseOf_transaction s hs] at h
+  obtain ⟨k, hk, ho, _⟩ := C02_partition_transaction h
+  have hl : o.slice.len < 2 ^ 62 := by
+    rw [ho]; show (s.bytes.take k).length < 2 ^ 62
+    rw [List.length_take]; unfold Slice.len at hs hk; omega
+  have hre := C15_reparse_transaction h
+  refine ⟨by rw [parseOf_transaction _ hl, hre], ?_⟩
+  rw [recorder_eq (fun v st => refine_transaction _ hl v st), recorder_eq (fun v st => refine_transaction s hs v st), hre]
+
+/-- on the model of the code: parse an input, then `parse` / `self_visit` the object's own bytes — equal object, empty
+    remainder, and the recording visitor receives the same callbacks as on the original input -/
+theorem C15_L1_reparse_block {s : Slice} (hs : s.len < 2 ^ 62) {o : BlockV} {rem : Slice}
+    (h : parseOf (Block.visit s) = .ok (o, rem)) :
+    parseOf (Block.visit o.slice) = .ok (o, ⟨rem.base, []⟩) ∧
+    (Block.visit o.slice) recorder [] = (((Block.visit s) recorder []).1, .ok (o, ⟨rem.base, []⟩)) := by
+  rw [parseOf_block s hs] at h
+  obtain ⟨k, hk, ho, _⟩ := C02_partition_block h
+  have hl : o.slice.len < 2 ^ 62 := by
+    rw [ho]; show (s.bytes.take k).length < 2 ^ 62
+    rw [List.length_take]; unfold Slice.len at hs hk; omega
+  have hre := C15_reparse_block h
+  refine ⟨by rw [parseOf_block _ hl, hre], ?_⟩
+  rw [recorder_eq (fun v st => refine_block _ hl v st), recorder_eq (fun v st => refine_block s hs v st), hre]
+
+
+end L1
 
 end BS
